@@ -10,6 +10,7 @@ import (
 	"os"
 	"path/filepath"
 	"runtime/debug"
+	"sort"
 	"strconv"
 	"strings"
 	"time"
@@ -44,6 +45,32 @@ func main() {
 		tier := fs.String("tier", envOr("VERIF_TIER", "quick"), "quick or thorough")
 		_ = fs.Parse(os.Args[3:])
 		os.Exit(check(id, *tier))
+	case "list-funcs":
+		prog, err := an.Load(nil)
+		if err != nil {
+			fmt.Println(err)
+			os.Exit(2)
+		}
+		seen := map[string]bool{}
+		var names []string
+		for fn := range prog.AllFuncs {
+			if fn.Parent() != nil || fn.Package() == nil || !strings.HasPrefix(fn.Package().Pkg.Path(), an.ModulePath) {
+				continue
+			}
+			if n := an.FuncQName(fn); !seen[n] {
+				seen[n] = true
+				names = append(names, n)
+			}
+		}
+		sort.Strings(names)
+		fmt.Println("# functions of the module on the reference tree (see an/known.go)")
+		for _, n := range names {
+			fmt.Println(n)
+		}
+	case "sweep":
+		// scverif sweep: load the tree once and run every property's quick rules; prints one line per
+		// new report. Writes no evidence (used to try many variants of the tree quickly).
+		os.Exit(sweep())
 	case "render":
 		// debugging aid: scverif render <pkg rel> <ServiceGoName>  prints the router template instance
 		prog, err := an.Load(nil)
@@ -298,4 +325,38 @@ func replay(path string) int {
 		fmt.Printf("obligation %s no longer exists on the current tree\n", rp.Obligation.Key)
 	}
 	return 0
+}
+
+func sweep() int {
+	ff, err := an.LoadFindings()
+	if err != nil {
+		fmt.Fprintln(os.Stderr, err)
+		return 2
+	}
+	prog, err := an.Load(nil)
+	if err != nil {
+		fmt.Printf("SWEEP LOAD-FAILED %v\n", err)
+		return 1
+	}
+	code := 0
+	for _, id := range props.IDs() {
+		p := props.Get(id)
+		c := an.NewCtx(prog, p.ID, "quick")
+		func() {
+			defer func() {
+				if r := recover(); r != nil {
+					c.Unk("R00.0", "checker-panic", 0, fmt.Sprintf("analysis panicked: %v", r))
+				}
+			}()
+			p.Run(c)
+		}()
+		c.Finish()
+		res := c.Result(ff)
+		for _, o := range res.New {
+			code = 1
+			fmt.Printf("SWEEP %s %s %s\n", id, o.Verdict, o.Key)
+		}
+	}
+	fmt.Printf("SWEEP done exit=%d\n", code)
+	return code
 }
